@@ -6,6 +6,7 @@ pub mod c09;
 pub mod c12;
 pub mod c13;
 pub mod c14;
+pub mod c15;
 pub mod c16;
 pub mod c17;
 pub mod selftest;
@@ -23,6 +24,7 @@ pub fn dispatch(ctx: &Ctx, rep: &mut Report) -> bool {
         "C12" => c12::run(ctx, rep),
         "C13" => c13::run(ctx, rep),
         "C14" => c14::run(ctx, rep),
+        "C15" => c15::run(ctx, rep),
         "C16" => c16::run(ctx, rep),
         "C17" => c17::run(ctx, rep),
         _ => return false,
